@@ -54,3 +54,17 @@ U("c01_parse_brackets_ownership", ["C01"], "h_parse_brackets", ["C01/brackets.c"
   kind="bounded", bounds={"bracket children": 3, "following token": "none | PAIR_PAREN | PAIR_BRACKET | any type"},
   functions=["parse_brackets"], callees={"explicit_link": "contract (returns NULL or a caller-owned link)", "extract_link_from_stack": "contract (returns NULL or an engine-owned link)", "text_inside_pair": "contract (returns a fresh string)"},
   min_obligations=20, assumptions=["explicit_link returns NULL or a link the caller owns; extract_link_from_stack returns NULL or a link owned by the scratch pad/engine (writer.c ownership comments)"])
+
+# ---- raw-source arm of BLOCK_CODE_FENCED in the five writers (memory safety of the spans copied from the source)
+for _s, _fn, _files in (("html", "mmd_export_token_html", ["html.c"]), ("latex", "mmd_export_token_latex", ["latex.c"]), ("beamer", "mmd_export_token_beamer", ["beamer.c"]),
+                        ("memoir", "mmd_export_token_memoir", ["memoir.c"]), ("opendocument", "mmd_export_token_opendocument", ["opendocument-content.c"])):
+    U("c01_fenced_raw_" + _s, ["C01"], "h_fenced", ["C01/fenced.c"], _files, plain=True, lib=(), kind="bounded",
+      defines=["-DI18N_DISABLED=1", "-DC01_WRITER=" + _fn],
+      pre_instrument=["--remove-function-body-regex", "^(?!%s$|h_fenced$|mk$|get_fence_language_specifier$|raw_filter_text_matches$|d_string_append_c_array$|verif_.*$|__CPROVER.*$).*" % _fn,
+                      "--generate-function-body", "^(?!__CPROVER_|malloc$|free$|verif_).*$", "--generate-function-body-options", "nondet-return"],
+      cbmc_flags=["--object-bits", "12", "--unwind", "9", "--unwinding-assertions"],
+      bounds={"lines in the block<=": 3, "source bytes<=": 32, "token type": "BLOCK_CODE_FENCED (constant)", "line types": "opening fence kinds x any x any"},
+      functions=[_fn + " (arm BLOCK_CODE_FENCED)"],
+      callees={"get_fence_language_specifier": "contract stub: NULL or a fresh string with any content", "raw_filter_text_matches": "any answer",
+               "d_string_append_c_array": "contract stub asserting that the range lies inside the source", "every other callee": "body removed, nondet return value"},
+      min_obligations=20, timeout=300, cost=15, assumptions=[NOFAIL, "configuration -DI18N_DISABLED"])
